@@ -32,6 +32,29 @@ type fixedInit struct{ t *ref.T }
 
 func (f fixedInit) Init(shape []int) (tensor.Tensor, error) { return rt.Leaf(f.t, true) }
 
+// initFunc and sliceInit are custom initializers whose dynamic types are NOT comparable with == (a func value, a struct holding
+// a slice): legal implementations of layers.Initializer that any `a == b` on the interface values would panic on.
+type initFunc func(shape []int) (tensor.Tensor, error)
+
+func (f initFunc) Init(shape []int) (tensor.Tensor, error) { return f(shape) }
+
+type sliceInit struct{ data []float64 }
+
+func (f sliceInit) Init(shape []int) (tensor.Tensor, error) {
+	return rt.Leaf(ref.New([]int{len(f.data)}, f.data), true)
+}
+
+// customInit returns an initializer producing t, of one of three dynamic types.
+func customInit(k *fw.K, t *ref.T) layers.Initializer {
+	switch k.Rng.Intn(3) {
+	case 0:
+		return initFunc(func([]int) (tensor.Tensor, error) { return rt.Leaf(t, true) })
+	case 1:
+		return sliceInit{append([]float64(nil), t.Data...)}
+	}
+	return fixedInit{t}
+}
+
 func runC16(c *fw.Ctx) {
 	deeperBounds(!c.Quick())
 	for B := 1; B <= 6; B++ {
@@ -66,6 +89,9 @@ func runC16(c *fw.Ctx) {
 	for i := 0; i < c.Pick(600, 20000); i++ {
 		c.Case(func(k *fw.K) { c16Accumulate(k) })
 	}
+	for i := 0; i < c.Pick(100, 2000); i++ {
+		c.Case(func(k *fw.K) { c16Overflow(k) })
+	}
 }
 
 func c16History(k *fw.K, B, D, O int) {
@@ -91,7 +117,12 @@ func c16History(k *fw.K, B, D, O int) {
 	var fc *layers.FC
 	var err error
 	if p := call(func() {
-		conf := &layers.FCConfig{Inputs: D, Outputs: O, Initializers: map[string]layers.Initializer{"Weight": fixedInit{w}, "Bias": fixedInit{b}}}
+		wi := customInit(k, w)
+		bi := customInit(k, b)
+		if _, isFunc := wi.(initFunc); isFunc {
+			bi = initFunc(func([]int) (tensor.Tensor, error) { return rt.Leaf(b, true) }) // both of the same non-comparable type
+		}
+		conf := &layers.FCConfig{Inputs: D, Outputs: O, Initializers: map[string]layers.Initializer{"Weight": wi, "Bias": bi}}
 		fc, err = layers.NewFC(conf)
 		conf.Inputs, conf.Outputs = 99, 99 // the caller's config and its map are overwritten after construction
 		conf.Initializers["Weight"], conf.Initializers["Bias"] = nil, nil
@@ -646,4 +677,77 @@ func c16Accumulate(k *fw.K) {
 		}
 	}
 	k.Count("passes_after_re_arming_the_parameters", 1)
+}
+
+// c16Overflow: finite parameters and finite features whose output OVERFLOWS for some units (y = +-Inf there) while others stay
+// finite. Forward is still the formula evaluated in float64; and d y[b][o] / d B[o] = 1, d y[b][o] / d x[b][d] = W[o] whatever
+// the value of y is - back-propagating from the layer's output delivers the number of rows to B and sum_o W[o] to every input.
+func c16Overflow(k *fw.K) {
+	D, O, B := 1+k.Rng.Intn(3), 2+k.Rng.Intn(2), 1
+	w := Shuffled(k.Rng, Unique(k.Rng, []int{O}, 0.2, 0.9))
+	w.Data[0] = 1.5 + k.Rng.Float64() // this unit overflows: 1.5 * D * 1e308
+	if k.Rng.Intn(2) == 0 {
+		w.Data[0] = -w.Data[0]
+	}
+	b := Shuffled(k.Rng, Unique(k.Rng, []int{O}, 0.2, 2))
+	x := ref.Full([]int{B, D}, 1e308/float64(D)) // sum_d x = 1e308: finite in every order of evaluation; only unit 0 (|W| >= 1.5) overflows
+	k.Case = map[string]any{"scenario": "outputs that overflow for some units", "W": w.Data, "B": b.Data, "x": x.Data}
+	k.Key("overflow/%d/%d", D, O)
+	k.Count("overflow_cases", 1)
+	fc, err := layers.NewFC(&layers.FCConfig{Inputs: D, Outputs: O, Initializers: map[string]layers.Initializer{"Weight": fixedInit{w}, "Bias": fixedInit{b}}})
+	if err != nil {
+		k.Failf("NewFC: %v", err)
+		return
+	}
+	rx := rt.MustLeaf(x, true)
+	var y tensor.Tensor
+	if p := call(func() {
+		if y, err = fc.Forward(rx); err == nil {
+			err = tensor.BackPropagate(y)
+		}
+	}); p != nil || err != nil {
+		k.Failf("Forward / BackPropagate with overflowing outputs: panic=%v err=%v", p, err)
+		return
+	}
+	yv, err := rt.Read(y)
+	if err != nil {
+		k.Failf("output unreadable: %v", err)
+		return
+	}
+	for o := 0; o < O; o++ {
+		want := w.Data[o]*1e308 + b.Data[o]
+		got := yv.Data[o]
+		if math.IsInf(want, 0) != math.IsInf(got, 0) || (!math.IsInf(want, 0) && !ref.Close(got, want, 0, 1e-11)) {
+			k.Failf("output %d = %v, the formula gives %v", o, got, want)
+			return
+		}
+	}
+	gb := (*fc.Weights()[1].Value).Gradient()
+	gx := rx.Gradient()
+	if gb == nil || gx == nil {
+		k.Failf("Bias or the tracked input received no gradient (nil: bias %v, input %v)", gb == nil, gx == nil)
+		return
+	}
+	bv, e1 := rt.Read(gb)
+	xv, e2 := rt.Read(gx)
+	if e1 != nil || e2 != nil {
+		k.Failf("gradients unreadable: %v %v", e1, e2)
+		return
+	}
+	for o, v := range bv.Data {
+		if v != 1 {
+			k.Failf("d(sum of outputs)/dB[%d] = %v with an overflowing unit in the layer, expected 1 (batch of one row)", o, v)
+			return
+		}
+	}
+	sw := 0.
+	for _, v := range w.Data {
+		sw += v
+	}
+	for d, v := range xv.Data {
+		if !ref.Close(v, sw, 1e-12, 1e-12) {
+			k.Failf("d(sum of outputs)/dx[0][%d] = %v with an overflowing unit in the layer, expected sum_o W[o] = %v", d, v, sw)
+			return
+		}
+	}
 }
